@@ -49,7 +49,7 @@ let ser_res (r : frag res) : string =
   | Fault _ -> "PANIC"
   | OutOfFuel -> "TIMEOUT"
 
-(* normalised (abs + flat) type, for the printer leg; same format as c16Norm in the harness *)
+(* the documented type a tree denotes (abs), for the printer leg; same format as c16Norm in the harness *)
 let rec ser_dtype (t : dtype) : string =
   match t with
   | DName nm -> "n:" ^ hx nm
@@ -168,7 +168,8 @@ let () = register "c16.line" (fun line ->
      | _ -> m ^ "\t-\t-")
   | _ -> "BAD-CASE")
 
-(* case: "<hex lines>"; spec = every unit (line + its continuation lines) read on its own, lines aligned *)
+(* case: "<hex lines>"; spec = every unit (line + its continuation lines) read on its own, lines aligned.
+   cont_after_bad / alias_lines tag the cases of the repaired findings (no deviation is accepted for them) *)
 let () = register "c16.fragment" (fun line ->
   match split_ws line with
   | h :: _ ->
@@ -210,6 +211,11 @@ let first_type (txt : n list) : (atype * n list * int) option =
   | Ok { f_stats = [SType (items, c)]; f_errs = []; _ } ->
     (match items with ((_, t) :: _) -> Some (t, c, List.length items) | [] -> None)
   | _ -> None
+(* model = TypeConvertStr of the code as it is (Model/AnnAst.v: deployed), the printed text read again;
+   spec = the re-read type is the documented type the tree denotes, nothing left as comment -- demanded for every
+   tree that denotes a documented type (doc_type; the only parser outputs outside are string constants that
+   contain a quote character).  Classes: printer_fun is the open finding; printer_const / printer_union /
+   printer_nested_union tag the cases of the repaired ones. *)
 let () = register "c16.print" (fun line ->
   match split_ws line with
   | h :: _ ->
@@ -218,16 +224,22 @@ let () = register "c16.print" (fun line ->
      | Some (a, _, _) ->
        let printed = type_convert_str a in
        let d = abs a in
-       let cls = classes [("printer_fun", has_fun d); ("printer_const", has_const d); ("printer_union", has_paren_item d)] in
-       let spec = hx printed ^ " " ^ ser_dtype (flat d) ^ " -" in
+       let cls = classes [("printer_fun", has_fun d); ("printer_const", has_const d); ("printer_union", has_paren_item d);
+                          ("printer_nested_union", has_union_in_union d)] in
+       let spec = if doc_type d then hx printed ^ " " ^ ser_dtype d ^ " -" else "-" in
        let model =
          (match parse_fragment [(n_of_int 1, type_line @ printed)] with
           | Ok { f_errs = _ :: _; _ } -> hx printed ^ " ERR -"
-          | Ok { f_stats = [SType ([(_, t)], c)]; _ } -> hx printed ^ " " ^ ser_dtype (flat (abs t)) ^ " " ^ hx c
+          | Ok { f_stats = [SType ([(_, t)], c)]; _ } -> hx printed ^ " " ^ ser_dtype (abs t) ^ " " ^ hx c
           | Ok _ -> hx printed ^ " NONE -"
           | Fault _ -> "PANIC"
           | OutOfFuel -> "TIMEOUT") in
        model ^ "\t" ^ spec ^ "\t" ^ cls)
   | _ -> "BAD-CASE")
+
+(* which repairs the model has: "const=1 union=1 fun=0 cont=1" (recorded by checks/c16.py in the evidence) *)
+let () = register "c16.fixes" (fun _ ->
+  Printf.sprintf "const=%s union=%s fun=%s cont=%s" (b01 deployed.fx_const) (b01 deployed.fx_union)
+    (b01 deployed.fx_fun) (b01 deployed.fx_cont))
 
 let () = main ()
